@@ -3,7 +3,9 @@ package g_shm
 import (
 	"fmt"
 	"math"
+	"sync"
 	"testing"
+	"time"
 
 	"github.com/Query-farm/vgi-rpc-go/vgirpc"
 	"github.com/apache/arrow-go/v18/arrow"
@@ -36,6 +38,41 @@ type c34Op struct {
 	Peer bool `json:"peer,omitempty"`
 	// Pub: a free goes through the exported FreeOffset
 	Pub bool `json:"pub,omitempty"`
+	// cwrite: operations another goroutine performs on the same handle while
+	// the AllocateAndWrite of this step is in progress
+	Sec []c34Sec `json:"sec,omitempty"`
+	// storm: free-running workers sharing the handle
+	Workers []c34Worker `json:"workers,omitempty"`
+}
+
+// c34Sec is one operation of the second goroutine of a "cwrite" step. The
+// batch handed to the step's AllocateAndWrite counts the accessor calls made
+// on it; when the count reaches At the operation is released and the writer
+// waits (bounded) for it to finish before it answers the accessor call.
+type c34Sec struct {
+	K    string `json:"k"` // alloc | free | write
+	Size int64  `json:"size,omitempty"`
+	Off  uint64 `json:"off,omitempty"`
+	Rows int    `json:"rows,omitempty"`
+	Pad  int    `json:"pad,omitempty"`
+	Dict bool   `json:"dict,omitempty"`
+	Pub  bool   `json:"pub,omitempty"`
+	Why  string `json:"why,omitempty"`
+	// At: 1-based index of the accessor call at which the operation is
+	// released (0: only after the writer returned). Sch: count Schema() calls
+	// only, else every accessor call (Schema, NumCols, NumRows, Column, ...).
+	At  int  `json:"at,omitempty"`
+	Sch bool `json:"sch,omitempty"`
+}
+
+// c34Worker is one free-running goroutine of a "storm" step: Rounds times
+// write a batch, check it, and free the oldest region once more than Hold
+// are held; everything is freed at the end.
+type c34Worker struct {
+	Rows   int `json:"rows"`
+	Pad    int `json:"pad,omitempty"`
+	Hold   int `json:"hold,omitempty"`
+	Rounds int `json:"rounds"`
 }
 
 type c34Case struct {
@@ -48,9 +85,11 @@ var c34DictSchema = arrow.NewSchema([]arrow.Field{
 	{Name: "d", Type: &arrow.DictionaryType{IndexType: arrow.PrimitiveTypes.Int16, ValueType: arrow.BinaryTypes.String}},
 }, nil)
 
-func c34Batch(op c34Op) arrow.RecordBatch {
+func c34Batch(op c34Op) arrow.RecordBatch { return c34BatchBase(op, 7) }
+
+func c34BatchBase(op c34Op, base int64) arrow.RecordBatch {
 	if !op.Dict {
-		return lib.MakeOut(lib.OutSchema, 7, op.Rows, op.Pad)
+		return lib.MakeOut(lib.OutSchema, base, op.Rows, op.Pad)
 	}
 	ib := array.NewInt64Builder(lib.Mem)
 	db := array.NewDictionaryBuilder(lib.Mem, c34DictSchema.Field(1).Type.(*arrow.DictionaryType)).(*array.BinaryDictionaryBuilder)
@@ -102,8 +141,11 @@ func genC34(t *rapid.T) c34Case {
 			continue
 		}
 		k := rapid.IntRange(0, 99).Draw(t, "opkind")
+		// the concurrent steps are about batches that do get stored: mostly
+		// drawn when the generator's table has room for a few of them
+		roomy := m.fits(16384)
 		switch {
-		case k < 44 || len(m.t) == 0 && k < 84:
+		case k < 40 || len(m.t) == 0 && k < 78:
 			op := c34Op{K: "alloc"}
 			var pos []gap
 			for _, g := range m.gaps() {
@@ -146,7 +188,7 @@ func genC34(t *rapid.T) c34Case {
 			m.alloc(op.Size)
 			op.Peer = rapid.IntRange(0, 2).Draw(t, "peer") == 0
 			c.Ops = append(c.Ops, op)
-		case k < 84:
+		case k < 78:
 			op := c34Op{K: "free"}
 			choice := rapid.IntRange(0, 9).Draw(t, "freekind")
 			if len(m.t) == 0 && choice < 7 {
@@ -172,7 +214,7 @@ func genC34(t *rapid.T) c34Case {
 			op.Peer = rapid.IntRange(0, 2).Draw(t, "fpeer") == 0
 			op.Pub = rapid.IntRange(0, 2).Draw(t, "fpub") == 0
 			c.Ops = append(c.Ops, op)
-		case k < 96:
+		case k < 87:
 			op := c34Op{K: "write", Rows: rapid.IntRange(1, 4).Draw(t, "wrows"), Dict: rapid.IntRange(0, 3).Draw(t, "wdict") == 0}
 			if rapid.Bool().Draw(t, "wpad?") {
 				op.Pad = rapid.IntRange(1, 3000).Draw(t, "wpad")
@@ -185,12 +227,119 @@ func genC34(t *rapid.T) c34Case {
 				m.alloc(guess)
 			}
 			c.Ops = append(c.Ops, op)
+		case k < 95 && (roomy || k == 87):
+			c.Ops = append(c.Ops, genC34Concurrent(t, m))
+		case k >= 95 && k < 97 && (roomy || k == 95):
+			op := c34Op{K: "storm", Peer: rapid.IntRange(0, 3).Draw(t, "stpeer") == 0}
+			nw := rapid.IntRange(2, 4).Draw(t, "stworkers")
+			for w := 0; w < nw; w++ {
+				wk := c34Worker{Rows: rapid.IntRange(1, 6).Draw(t, "strows"), Hold: rapid.IntRange(0, 2).Draw(t, "sthold"), Rounds: rapid.IntRange(2, 10).Draw(t, "strounds")}
+				if rapid.Bool().Draw(t, "stpad?") {
+					wk.Pad = rapid.IntRange(1, 2000).Draw(t, "stpad")
+				}
+				op.Workers = append(op.Workers, wk)
+			}
+			// every worker frees what it allocated: the table is expected back
+			c.Ops = append(c.Ops, op)
 		default:
 			m.reset()
 			c.Ops = append(c.Ops, c34Op{K: "reset"})
 		}
 	}
 	return c
+}
+
+// genC34Concurrent draws a "cwrite" step: one AllocateAndWrite and 1-3
+// operations of a second goroutine on the same handle, each released at a
+// chosen accessor call the writer makes on its batch (so that every point of
+// the call at which the writer does not hold the segment lock is a possible
+// place for the other goroutine's operation to complete).
+func genC34Concurrent(t *rapid.T, m *model) c34Op {
+	op := c34Op{K: "cwrite", Rows: rapid.IntRange(1, 4).Draw(t, "cwrows"), Dict: rapid.IntRange(0, 3).Draw(t, "cwdict") == 0,
+		Peer: rapid.IntRange(0, 3).Draw(t, "cwpeer") == 0}
+	if rapid.Bool().Draw(t, "cwpad?") {
+		op.Pad = rapid.IntRange(1, 3000).Draw(t, "cwpad")
+	}
+	pb := c34Batch(op)
+	pguess := int64(len(lib.EncodeStream(pb.Schema(), pb)))
+	guessWrite := func(g int64) {
+		if m.fits(g + 4096) {
+			m.alloc(g)
+		}
+	}
+	nsec := rapid.IntRange(1, 3).Draw(t, "nsec")
+	var after []c34Sec
+	for j := 0; j < nsec; j++ {
+		var sec c34Sec
+		switch r := rapid.IntRange(0, 9).Draw(t, "secat"); {
+		case r <= 5:
+			sec.Sch, sec.At = true, rapid.IntRange(1, 5).Draw(t, "secschema")
+		case r <= 8:
+			sec.At = rapid.IntRange(1, 32).Draw(t, "seccall")
+		}
+		var pos []gap
+		for _, g := range m.gaps() {
+			if g.size > 0 {
+				pos = append(pos, g)
+			}
+		}
+		switch kind := rapid.IntRange(0, 9).Draw(t, "seckind"); {
+		case kind <= 3:
+			sec.K = "alloc"
+			switch sz := rapid.IntRange(0, 5).Draw(t, "secsize"); {
+			case sz <= 1:
+				sec.Size, sec.Why = pguess, "writer-size"
+			case sz == 2 && len(pos) > 0:
+				sec.Size, sec.Why = int64(pos[rapid.IntRange(0, len(pos)-1).Draw(t, "secgap")].size), "gap-exact"
+			case sz == 3 && len(pos) > 0:
+				hi := pos[0].size
+				if hi > 1<<16 {
+					hi = 1 << 16
+				}
+				sec.Size, sec.Why = int64(rapid.Uint64Range(1, hi).Draw(t, "secwithin")), "within-first-gap"
+			default:
+				sec.Size, sec.Why = int64(rapid.IntRange(1, 96).Draw(t, "secsmall")), "small"
+			}
+		case kind <= 7:
+			sec.K = "free"
+			sec.Pub = rapid.IntRange(0, 2).Draw(t, "secpub") != 0
+			if len(m.t) > 0 && rapid.IntRange(0, 9).Draw(t, "seclive") != 0 {
+				sec.Off, sec.Why = m.t[rapid.IntRange(0, len(m.t)-1).Draw(t, "secliveidx")][0], "live"
+			} else {
+				sec.Off, sec.Why = rapid.Uint64Range(hdrSize, m.segSize).Draw(t, "secanyoff"), "garbage-any"
+			}
+		default:
+			sec.K, sec.Rows, sec.Dict = "write", rapid.IntRange(1, 3).Draw(t, "secrows"), rapid.IntRange(0, 3).Draw(t, "secdict") == 0
+			if rapid.Bool().Draw(t, "secpad?") {
+				sec.Pad = rapid.IntRange(1, 3000).Draw(t, "secpad")
+			}
+		}
+		op.Sec = append(op.Sec, sec)
+		// generator's guess of the table: operations released inside the call
+		// take effect before the writer allocates, the others after it
+		if sec.At == 0 || len(after) > 0 {
+			after = append(after, sec)
+			continue
+		}
+		c34GuessSec(m, sec, guessWrite)
+	}
+	guessWrite(pguess)
+	for _, sec := range after {
+		c34GuessSec(m, sec, guessWrite)
+	}
+	return op
+}
+
+func c34GuessSec(m *model, sec c34Sec, guessWrite func(int64)) {
+	switch sec.K {
+	case "alloc":
+		m.alloc(sec.Size)
+	case "free":
+		m.free(sec.Off)
+	case "write":
+		b := c34BatchBase(c34Op{Rows: sec.Rows, Pad: sec.Pad, Dict: sec.Dict}, 500)
+		guessWrite(int64(len(lib.EncodeStream(b.Schema(), b))))
+	}
 }
 
 func runC34(c c34Case) (out lib.Outcome) {
@@ -248,6 +397,10 @@ func runC34(c c34Case) (out lib.Outcome) {
 				s += fmt.Sprintf("write(rows=%d,pad=%d,dict=%v) ", o.Rows, o.Pad, o.Dict)
 			case "fill":
 				s += fmt.Sprintf("fill(%dx%d) ", o.N, o.Size)
+			case "cwrite":
+				s += fmt.Sprintf("cwrite(rows=%d,pad=%d,dict=%v || %d ops) ", o.Rows, o.Pad, o.Dict, len(o.Sec))
+			case "storm":
+				s += fmt.Sprintf("storm(%d workers) ", len(o.Workers))
 			default:
 				s += o.K + " "
 			}
@@ -407,6 +560,29 @@ func runC34(c c34Case) (out lib.Outcome) {
 					return
 				}
 			}
+		case "cwrite":
+			hnd := peerOf(op)
+			if hnd == nil {
+				out.Violate("C34/attach-refused", "data=%d step %d: ShmAttach for the peer handle failed", c.Data, i)
+				return
+			}
+			nm, key, msg := c34ConcurrentStep(hnd, m, op, &out)
+			if key != "" {
+				out.Violate(key, "data=%d step %d: %s; ops %s", c.Data, i, msg, trace(i))
+				return
+			}
+			m = nm
+		case "storm":
+			hnd := peerOf(op)
+			if hnd == nil {
+				out.Violate("C34/attach-refused", "data=%d step %d: ShmAttach for the peer handle failed", c.Data, i)
+				return
+			}
+			out.Label("storm")
+			if key, msg := c34Storm(hnd, size, op, &out); key != "" {
+				out.Violate(key, "data=%d step %d: %s; ops %s", c.Data, i, msg, trace(i))
+				return
+			}
 		case "fill":
 			reached := false
 			for j := 0; j < op.N; j++ {
@@ -456,18 +632,442 @@ func runC34(c c34Case) (out lib.Outcome) {
 	return
 }
 
+// ---- several goroutines on one handle ----
+//
+// The allocator's operations are atomic (ShmSegment.mu: "a single process can
+// call AllocateAndWrite/FreeOffset from multiple goroutines"), so whatever the
+// schedule, the results of operations that overlap in time must be those of
+// some sequence of them — which is what the statement quantifies over.
+
+// yieldBatch is an ordinary record batch that reports every accessor call
+// made on it, so the harness can let another goroutine's operation complete at
+// that point of AllocateAndWrite.
+type yieldBatch struct {
+	arrow.RecordBatch
+	all, sch int
+	onCall   func(all, sch int, isSchema bool)
+}
+
+func (y *yieldBatch) tick(isSchema bool) {
+	y.all++
+	if isSchema {
+		y.sch++
+	}
+	if y.onCall != nil {
+		y.onCall(y.all, y.sch, isSchema)
+	}
+}
+func (y *yieldBatch) Schema() *arrow.Schema    { y.tick(true); return y.RecordBatch.Schema() }
+func (y *yieldBatch) NumRows() int64           { y.tick(false); return y.RecordBatch.NumRows() }
+func (y *yieldBatch) NumCols() int64           { y.tick(false); return y.RecordBatch.NumCols() }
+func (y *yieldBatch) Columns() []arrow.Array   { y.tick(false); return y.RecordBatch.Columns() }
+func (y *yieldBatch) Column(i int) arrow.Array { y.tick(false); return y.RecordBatch.Column(i) }
+func (y *yieldBatch) ColumnName(i int) string  { y.tick(false); return y.RecordBatch.ColumnName(i) }
+
+// c34Obs is what one operation of a concurrent step returned.
+type c34Obs struct {
+	kind   string
+	size   int64  // alloc
+	off    uint64 // free
+	enc    int64  // write: bytes of the batch in my own encoding
+	gotOff uint64
+	gotN   int
+	ok     bool
+	perr   string // panic or error text
+	desc   string
+}
+
+func (o *c34Obs) String() string {
+	switch o.kind {
+	case "alloc":
+		return fmt.Sprintf("%s -> (%d,%v)", o.desc, o.gotOff, o.ok)
+	case "free":
+		return fmt.Sprintf("%s -> ok=%v", o.desc, o.ok)
+	}
+	return fmt.Sprintf("%s -> (off %d, len %d, ok=%v)", o.desc, o.gotOff, o.gotN, o.ok)
+}
+
+const (
+	// how long the writer waits, inside an accessor call, for the released
+	// operation: Schema() is asked for outside the segment lock, the column
+	// accessors also under it (there the other goroutine cannot finish before
+	// the writer moves on). Scheduling aid only — no verdict depends on it.
+	c34YieldSchemaWait = 2 * time.Second
+	c34YieldOtherWait  = 2 * time.Millisecond
+	c34HangBound       = 120 * time.Second
+)
+
+// c34Replay applies the observed operations in the given order to a copy of
+// the model; it returns the resulting model when every observed result and the
+// final table are what that sequence produces.
+func c34Replay(m0 *model, seq []*c34Obs, final [][2]uint64) (*model, string) {
+	m := &model{segSize: m0.segSize, t: m0.table()}
+	for _, o := range seq {
+		switch o.kind {
+		case "alloc":
+			off, ok, _ := m.alloc(o.size)
+			if ok != o.ok || ok && off != o.gotOff {
+				return nil, fmt.Sprintf("%s, a sequential allocator gives (%d,%v) there", o, off, ok)
+			}
+		case "free":
+			if ok := m.free(o.off); ok != o.ok {
+				return nil, fmt.Sprintf("%s, a sequential allocator gives ok=%v there", o, ok)
+			}
+		case "write":
+			if o.ok {
+				off, ok, _ := m.alloc(int64(o.gotN))
+				if o.gotN <= 0 || !ok || off != o.gotOff {
+					return nil, fmt.Sprintf("%s, first fit for %d bytes there is (%d,%v)", o, o.gotN, off, ok)
+				}
+			} else if len(m.t) < maxEntries && m.fits(o.enc+4096+64) {
+				return nil, fmt.Sprintf("%s refused though a gap holds its upper bound there", o)
+			}
+		}
+	}
+	if d := tableDiff(final, m.t); d != "" {
+		return nil, "final table: " + d
+	}
+	return m, ""
+}
+
+// c34ConcurrentStep runs one AllocateAndWrite while a second goroutine performs
+// op.Sec on the same handle, and judges the results against every sequence the
+// real-time order allows.
+func c34ConcurrentStep(hnd *vgirpc.ShmSegment, m *model, op c34Op, out *lib.Outcome) (*model, string, string) {
+	out.Label("op:cwrite")
+	prim := &c34Obs{kind: "write", desc: fmt.Sprintf("W:write(rows=%d,pad=%d,dict=%v)", op.Rows, op.Pad, op.Dict)}
+	pb := c34Batch(op)
+	prim.enc = int64(len(lib.EncodeStream(pb.Schema(), pb)))
+	secs := make([]*c34Obs, len(op.Sec))
+	secBatch := make([]arrow.RecordBatch, len(op.Sec))
+	for j, sc := range op.Sec {
+		o := &c34Obs{kind: sc.K, size: sc.Size, off: sc.Off}
+		switch sc.K {
+		case "alloc":
+			o.desc = fmt.Sprintf("G%d:alloc(%d)", j, sc.Size)
+		case "free":
+			o.desc = fmt.Sprintf("G%d:free(%d)", j, sc.Off)
+		case "write":
+			b := c34BatchBase(c34Op{Rows: sc.Rows, Pad: sc.Pad, Dict: sc.Dict}, int64(500+j))
+			secBatch[j] = b
+			o.enc = int64(len(lib.EncodeStream(b.Schema(), b)))
+			o.desc = fmt.Sprintf("G%d:write(rows=%d,pad=%d,dict=%v)", j, sc.Rows, sc.Pad, sc.Dict)
+		default:
+			panic("c34: unknown concurrent op " + sc.K)
+		}
+		secs[j] = o
+	}
+	release := make([]chan struct{}, len(secs))
+	done := make([]chan struct{}, len(secs))
+	for j := range secs {
+		release[j], done[j] = make(chan struct{}), make(chan struct{})
+	}
+	finished := make(chan struct{})
+	go func() {
+		defer close(finished)
+		for j, sc := range op.Sec {
+			<-release[j]
+			o := secs[j]
+			o.perr = guard(func() {
+				switch sc.K {
+				case "alloc":
+					o.gotOff, o.ok = vgirpc.VerifShmAllocate(hnd, int(sc.Size))
+				case "free":
+					var err error
+					if sc.Pub {
+						err = hnd.FreeOffset(sc.Off)
+					} else {
+						err = vgirpc.VerifShmFree(hnd, sc.Off)
+					}
+					o.ok = err == nil
+				case "write":
+					var err error
+					o.gotOff, o.gotN, o.ok, err = hnd.AllocateAndWrite(secBatch[j])
+					if err != nil {
+						panic("error: " + err.Error())
+					}
+				}
+			})
+			close(done[j])
+		}
+	}()
+	next, inCall, completedInCall := 0, 0, 0
+	yb := &yieldBatch{RecordBatch: pb}
+	yb.onCall = func(all, sch int, isSchema bool) {
+		if next >= len(secs) {
+			return
+		}
+		sc := op.Sec[next]
+		if sc.At == 0 || sc.Sch && (!isSchema || sch < sc.At) || !sc.Sch && all < sc.At {
+			return
+		}
+		wait := c34YieldOtherWait
+		if isSchema {
+			wait = c34YieldSchemaWait
+		}
+		close(release[next])
+		inCall++
+		tm := time.NewTimer(wait)
+		select {
+		case <-done[next]:
+			completedInCall++
+		case <-tm.C:
+			out.Label("cwrite-yield-while-locked")
+		}
+		tm.Stop()
+		next++
+	}
+	var werr error
+	prim.perr = guard(func() { prim.gotOff, prim.gotN, prim.ok, werr = hnd.AllocateAndWrite(yb) })
+	yb.onCall = nil
+	for ; next < len(secs); next++ {
+		close(release[next])
+	}
+	select {
+	case <-finished:
+	case <-time.After(c34HangBound):
+		return nil, "C34/concurrent-ops-never-return", fmt.Sprintf("operations of a second goroutine on the handle did not return within %v of the writer's return", c34HangBound)
+	}
+	if prim.perr != "" {
+		return nil, "C34/write-panic", "AllocateAndWrite panicked while another goroutine used the handle: " + lib.Short(prim.perr, 300)
+	}
+	if werr != nil {
+		return nil, "C34/write-error", "AllocateAndWrite while another goroutine used the handle: " + werr.Error()
+	}
+	for _, o := range secs {
+		if o.perr != "" {
+			return nil, "C34/concurrent-op-failed", o.desc + ": " + lib.Short(o.perr, 300)
+		}
+	}
+	if completedInCall > 0 {
+		out.Label("cwrite-op-inside-call")
+	}
+	for j, o := range secs {
+		if j >= inCall {
+			break
+		}
+		switch {
+		case o.kind == "free" && o.ok:
+			out.Label("cwrite-free-live-inside-call")
+		case o.kind != "free" && o.ok:
+			out.Label("cwrite-alloc-inside-call")
+		}
+	}
+	if prim.ok {
+		out.Label("cwrite-ok")
+	} else {
+		out.Label("cwrite-nofit")
+	}
+	final := vgirpc.VerifShmAllocs(hnd)
+	// The writer takes effect at some instant of its call: after 0..inCall of
+	// the other goroutine's operations (those released later started after it
+	// had returned).
+	var why []string
+	for p := inCall; p >= 0; p-- {
+		seq := make([]*c34Obs, 0, len(secs)+1)
+		seq = append(seq, secs[:p]...)
+		seq = append(seq, prim)
+		seq = append(seq, secs[p:]...)
+		nm, d := c34Replay(m, seq, final)
+		if d == "" {
+			return nm, "", ""
+		}
+		why = append(why, fmt.Sprintf("writer after %d: %s", p, d))
+	}
+	// name the clause
+	all := append([]*c34Obs{prim}, secs...)
+	key := "C34/concurrent-results-match-no-sequence"
+	listed := func(off uint64) bool {
+		for _, e := range final {
+			if e[0] == off {
+				return true
+			}
+		}
+		return false
+	}
+	freed := func(off uint64) bool {
+		for _, o := range all {
+			if o.kind == "free" && o.ok && o.off == off {
+				return true
+			}
+		}
+		return false
+	}
+	var regs [][2]uint64
+	for _, o := range all {
+		if o.kind == "free" || !o.ok {
+			continue
+		}
+		n := uint64(o.gotN)
+		if o.kind == "alloc" {
+			n = uint64(o.size)
+		}
+		if !freed(o.gotOff) && !listed(o.gotOff) && key == "C34/concurrent-results-match-no-sequence" {
+			key = "C34/concurrent-allocation-not-listed"
+		}
+		regs = append(regs, [2]uint64{o.gotOff, n})
+	}
+	for _, o := range all {
+		if o.kind == "free" && o.ok && listed(o.off) && key == "C34/concurrent-results-match-no-sequence" {
+			fresh := false
+			for _, r := range regs {
+				fresh = fresh || r[0] == o.off
+			}
+			if !fresh {
+				key = "C34/concurrent-freed-region-still-listed"
+			}
+		}
+	}
+	for a := range regs {
+		for b := a + 1; b < len(regs); b++ {
+			if regs[a][0] < regs[b][0]+regs[b][1] && regs[b][0] < regs[a][0]+regs[a][1] && !freed(regs[a][0]) && !freed(regs[b][0]) {
+				key = "C34/concurrent-regions-overlap"
+			}
+		}
+	}
+	obs := ""
+	for _, o := range all {
+		obs += o.String() + "; "
+	}
+	return nil, key, fmt.Sprintf("one AllocateAndWrite (W) overlapped in time with %d operation(s) of another goroutine (G) on the same handle (%d released inside the call, %d seen to finish inside it); table before %s, after %s; results: %s no sequence of these atomic operations gives them: %v",
+		len(secs), inCall, completedInCall, fmtTable(m.table()), fmtTable(final), obs, why)
+}
+
+// c34Storm lets op.Workers goroutines write / check / free on one handle with
+// no scheduling help. Exact oracle: regions that are live at the same time
+// (registered after the allocation returned, unregistered before the free is
+// called) never overlap; a live region is listed in every table snapshot and
+// holds the bytes its owner wrote; the owner's free succeeds.
+func c34Storm(hnd *vgirpc.ShmSegment, segSize int, op c34Op, out *lib.Outcome) (string, string) {
+	type region struct {
+		off uint64
+		n   int
+		w   int
+	}
+	var mu sync.Mutex
+	live := map[uint64]region{}
+	var failKey, failMsg string
+	fail := func(key, format string, args ...any) {
+		mu.Lock()
+		if failKey == "" {
+			failKey, failMsg = key, fmt.Sprintf(format, args...)
+		}
+		mu.Unlock()
+	}
+	failed := func() bool { mu.Lock(); defer mu.Unlock(); return failKey != "" }
+	wrote := 0
+	start := make(chan struct{})
+	var wg sync.WaitGroup
+	for w, spec := range op.Workers {
+		wg.Add(1)
+		go func(w int, spec c34Worker) {
+			defer wg.Done()
+			<-start
+			var held []region
+			drop := func(r region) {
+				mu.Lock()
+				delete(live, r.off)
+				mu.Unlock()
+				var err error
+				if p := guard(func() { err = hnd.FreeOffset(r.off) }); p != "" {
+					fail("C34/free-panic", "worker %d: FreeOffset(%d) panicked: %s", w, r.off, lib.Short(p, 300))
+				} else if err != nil {
+					fail("C34/concurrent-free-live-refused", "worker %d: FreeOffset(%d) of its own live region (%d bytes) failed: %v", w, r.off, r.n, err)
+				}
+			}
+			for round := 0; round < spec.Rounds && !failed(); round++ {
+				b := lib.MakeOut(lib.OutSchema, int64(1000*(w+1)+round), spec.Rows, spec.Pad)
+				var r region
+				var ok bool
+				var err error
+				if p := guard(func() { r.off, r.n, ok, err = hnd.AllocateAndWrite(b) }); p != "" {
+					fail("C34/write-panic", "worker %d: AllocateAndWrite panicked: %s", w, lib.Short(p, 300))
+					break
+				}
+				if err != nil {
+					fail("C34/write-error", "worker %d: AllocateAndWrite: %v", w, err)
+					break
+				}
+				if !ok {
+					continue
+				}
+				r.w = w
+				mu.Lock()
+				wrote++
+				for _, o := range live {
+					if o.off < r.off+uint64(r.n) && r.off < o.off+uint64(o.n) && failKey == "" {
+						failKey = "C34/concurrent-regions-overlap"
+						failMsg = fmt.Sprintf("worker %d was given [%d,%d) while worker %d still holds [%d,%d)", w, r.off, r.off+uint64(r.n), o.w, o.off, o.off+uint64(o.n))
+					}
+				}
+				live[r.off] = r
+				mu.Unlock()
+				tab := vgirpc.VerifShmAllocs(hnd)
+				if d := tableInvariant(tab, segSize); d != "" {
+					fail("C34/table-invariant-after-storm", "%s; table %s", d, fmtTable(tab))
+				}
+				found := false
+				for _, e := range tab {
+					found = found || e[0] == r.off && e[1] == uint64(r.n)
+				}
+				if !found {
+					fail("C34/concurrent-allocation-not-listed", "worker %d holds (off %d, len %d), returned by AllocateAndWrite and not freed, but the table is %s", w, r.off, r.n, fmtTable(tab))
+				}
+				var rb arrow.RecordBatch
+				var rerr error
+				if p := guard(func() { rb, rerr = hnd.ReadBatch(r.off, r.n, b.Schema()) }); p != "" {
+					rerr = fmt.Errorf("panic: %s", lib.Short(p, 200))
+				}
+				if rerr != nil {
+					fail("C34/concurrent-live-region-overwritten", "worker %d: its live region (off %d, len %d) no longer reads back: %v", w, r.off, r.n, rerr)
+				} else if d := lib.BatchDiff(b, rb); d != "" {
+					fail("C34/concurrent-live-region-overwritten", "worker %d: its live region (off %d, len %d) holds another batch: %s", w, r.off, r.n, lib.Short(d, 200))
+				}
+				held = append(held, r)
+				if len(held) > spec.Hold {
+					drop(held[0])
+					held = held[1:]
+				}
+			}
+			for _, r := range held {
+				if failed() {
+					break
+				}
+				drop(r)
+			}
+		}(w, spec)
+	}
+	close(start)
+	doneCh := make(chan struct{})
+	go func() { wg.Wait(); close(doneCh) }()
+	select {
+	case <-doneCh:
+	case <-time.After(c34HangBound):
+		return "C34/concurrent-ops-never-return", fmt.Sprintf("%d workers sharing the handle did not finish within %v", len(op.Workers), c34HangBound)
+	}
+	if wrote > 0 {
+		out.Label("storm-wrote")
+	}
+	return failKey, failMsg
+}
+
 var propC34 = lib.Prop[c34Case]{
 	ID: "C34",
 	Rule: "stateful histories of 1-40 operations on a fresh segment with a data area of 1 B - 4 MiB: allocate (<=0, 1, each current gap size and +-1, anywhere inside a gap, free+1, huge), " +
 		"free (live offset, inside/at the end of a region, header/garbage offsets), reset, real AllocateAndWrite of plain and dictionary batches, fill to the 4094-entry limit; " +
 		"after every step the hook-read table and my own parse of the header bytes through a second mapping equal a first-fit reference model, and at the end ShmAttach and a file read agree. " +
+		"Steps with two goroutines on one handle: an AllocateAndWrite whose batch reports its accessor calls, at a drawn call (n-th Schema() or n-th accessor of any kind) 1-3 operations of a second goroutine (allocate of the writer's size / a gap / small, free of a live or garbage offset, another AllocateAndWrite) are released one by one and awaited (bounded); " +
+		"the results and the table after the step must be those of some sequence of these atomic operations compatible with real time (the writer placed after 0..k of the operations released inside its call). " +
+		"Storm steps: 2-4 free-running workers write / check / free on one handle; regions held at the same time never overlap, a held region is in every table snapshot and reads back as written, the owner's free succeeds, and the table afterwards is the one before. " +
 		"Non-trivial: the history contains a free followed by an allocation placed in a hole (not the tail gap).",
-	Gen:          genC34,
-	Run:          runC34,
-	Essential:    []string{"via-peer-handle", "count-limit-reject", "hole-fit", "alloc-fail", "alloc-exact-gap", "free-garbage", "free-live", "write-ok", "write-nofit", "fill-max", "op:reset"},
+	Gen: genC34,
+	Run: runC34,
+	Essential: []string{"via-peer-handle", "count-limit-reject", "hole-fit", "alloc-fail", "alloc-exact-gap", "free-garbage", "free-live", "write-ok", "write-nofit", "fill-max", "op:reset",
+		"cwrite-ok", "cwrite-op-inside-call", "cwrite-alloc-inside-call", "cwrite-free-live-inside-call", "storm-wrote"},
 	EssentialMin: 300,
 	Assumptions: []string{"allocate(size<=0) is expected to fail (a zero-length region cannot satisfy the table clause)",
-		"AllocateAndWrite may refuse a batch whose documented upper bound (buffers+4096) does not fit although the exact bytes would"},
+		"AllocateAndWrite may refuse a batch whose documented upper bound (buffers+4096) does not fit although the exact bytes would",
+		"operations issued by several goroutines on one *ShmSegment are atomic (the mu field's documented contract), so overlapping operations must be equivalent to some sequence of them; two handles of one segment are never used at the same time (lockstep between processes is the protocol's precondition)"},
 }
 
 func TestC34(t *testing.T) { lib.Check(t, propC34) }
